@@ -303,7 +303,7 @@ def cfg_sweep(r, focus):
         return [dict(la=la, one=r.choice([0, 1]), cost=r.choice([0, 1]), rec=0) for la in (0, 1, 2)] + \
                [dict(la=r.choice([0, 1, 2]), one=one, cost=cost, rec=1)]
     if focus == 'C02':
-        return [dict(la=la, one=1, cost=0, rec=0) for la in r.sample([0, 1, 2], 2)]
+        return [dict(la=la, one=1, cost=0, rec=0) for la in r.sample([0, 1, 2], 2)] + [dict(la=r.choice([0, 1, 2]), one=1, cost=1, rec=0)]
     if focus == 'C03':
         return [dict(la=la, one=0, cost=0, rec=0) for la in r.sample([0, 1, 2], 2)]
     if focus == 'C04':
